@@ -1,5 +1,5 @@
 SPECIFICATION Spec
-CONSTANTS NX = 4  NY = 3  NZ = 3  Variant = "doc"  HaloMode = "few"  NumFields = 4  NumWidths = 3  Parts = 2
+CONSTANTS NX = 4  NY = 3  NZ = 3  Variant = "doc"  HaloMode = "few"  NumFields = 4  NumWidths = 3  DetMode = "all"  Parts = 2
 INVARIANT TypeOK
 INVARIANT RecordIsFormula
 INVARIANT PathsAgree
